@@ -329,7 +329,16 @@ void ScriptMaster::ExecuteRunning()
         uint64_t i = 0;
         while ((m_CurrentThread = (ScriptThread*)timerList.GetNextElement(i)))
         {
-            m_CurrentThread->Resume();
+            try
+            {
+                m_CurrentThread->Resume();
+            }
+            catch (...)
+            {
+                // the thread was aborted: leave the scheduler usable
+                m_CurrentThread = nullptr;
+                throw;
+            }
         }
     }
 }
